@@ -407,8 +407,9 @@ Ev(e, R, i) ==
       [] e.k = "cast" -> CastVal(e.e.ty, e.to, Ev(e.e, R, i))
       [] e.k = "agg" ->
             LET I == PartRows(e.part, R, i)
-                J == IF e.f = <<>> THEN I ELSE {j \in I : Ev(e.f[1], R, j) = TRUE}
-                fu == e.f # <<>> /\ \E j \in I : IsU(Ev(e.f[1], R, j))
+                \* filter= takes one condition or a list: a row counts iff ALL conditions are true for it
+                J == {j \in I : \A q \in DOMAIN e.f : Ev(e.f[q], R, j) = TRUE}
+                fu == \E q \in DOMAIN e.f : \E j \in I : IsU(Ev(e.f[q], R, j))
                 V == IF e.op = "len" THEN [j \in J |-> 0] ELSE [j \in J |-> Ev(e.a[1], R, j)]
             IN IF fu THEN UNDEF ELSE AggVal(e.op, IF e.op = "len" THEN "int" ELSE e.a[1].ty, V, J)
       [] e.k = "win" ->
